@@ -52,7 +52,7 @@ Open Scope list_scope.
 
 Theorem C01_straightline_program_runs_as_its_source_says :
   forall (p : script) (w : world) (fuel : nat) (evs : list event),
-    forallb (simple_atom (snd (collect p [] []))) p = true -> (seq_size p <= fuel)%nat ->
+    forallb (simple_atom (snd (collect p [] []))) p = true ->
     run_src fuel p w = SFinished evs ->
     exists k, run_program k (compile p) w = Finished evs.
 Proof. exact straightline_program_runs_as_its_source_says. Qed.
@@ -61,7 +61,7 @@ Print Assumptions C01_straightline_program_runs_as_its_source_says.
 (* the same, statement by statement, for code placed anywhere in an image and any pair of corresponding states *)
 Theorem C01_script_simulation :
   forall rt mt p, forallb (simple_atom mt) p = true ->
-  forall im ss s ss' fuel, sim ss s -> code_at im (m_pc s) (flat_map (c_stmt rt mt false None) p) -> (seq_size p <= fuel)%nat ->
+  forall im ss s ss' fuel, sim ss s -> code_at im (m_pc s) (flat_map (c_stmt rt mt false None) p) ->
   exec_seq rt mt fuel false ss p = ROk SigNormal ss' -> simulates im ss s ss' (flat_map (c_stmt rt mt false None) p).
 Proof. exact script_simulation. Qed.
 Print Assumptions C01_script_simulation.
@@ -72,16 +72,16 @@ Example C01_simulation_nonvacuous :
             SReg R_DURATION (RVar "x"); SSet (OpList [Target TLight (NStr "a"); Target TGroup (NStr "g")]); SOn OpAll; SWait;
             SPrintln (Some (RVar "x")); SOff (OpList [Target TLocation (NStr "l")])] in
   let w := [mkLight "a" "g" "l" KPlain [0; 0; 0; 0]; mkLight "b" "g" "l" KPlain [0; 0; 0; 0]] in
-  forallb (simple_atom (snd (collect p [] []))) p = true /\ (seq_size p <= 200)%nat /\
+  forallb (simple_atom (snd (collect p [] []))) p = true /\
   exists evs, run_src 200 p w = SFinished evs /\ (3 <= length evs)%nat.
-Proof. split; [vm_compute; reflexivity|]. split; [vm_compute; repeat constructor|]. eexists. split; [vm_compute; reflexivity|]. cbn. repeat constructor. Qed.
+Proof. split; [vm_compute; reflexivity|]. eexists. split; [vm_compute; reflexivity|]. cbn. repeat constructor. Qed.
 
-(* ---- extended to conditionals and blocks (Lang/Simulation2.v): every loop-free, call-free program ---- *)
+(* ---- extended to conditionals, blocks and `repeat while` loops (Lang/Simulation2.v), nested to any depth ---- *)
 From Bardolph Require Import Lang.Simulation2.
 
 Theorem C01_loopfree_program_runs_as_its_source_says :
   forall (p : script) (w : world) (fuel : nat) (evs : list event),
-    SimpleL (snd (collect p [] [])) p -> (sizeL p <= fuel)%nat ->
+    SimpleL (snd (collect p [] [])) p ->
     run_src fuel p w = SFinished evs ->
     exists k, run_program k (compile p) w = Finished evs.
 Proof. exact loopfree_program_runs_as_its_source_says. Qed.
@@ -90,7 +90,7 @@ Print Assumptions C01_loopfree_program_runs_as_its_source_says.
 (* if / else choose by the truth of their condition, statement by statement, anywhere in an image *)
 Theorem C01_conditional_simulation :
   forall rt mt st, Simple mt st ->
-  forall im ss s sig ss' fuel, sim ss s -> code_at im (m_pc s) (c_stmt rt mt false None st) -> (size st <= fuel)%nat ->
+  forall im ss s sig ss' fuel, sim ss s -> code_at im (m_pc s) (c_stmt rt mt false None st) ->
   Sem.exec rt mt fuel false ss st = ROk sig ss' -> sig = SigNormal /\ simulates im ss s ss' (c_stmt rt mt false None st).
 Proof. intros rt mt. exact (proj1 (simple_simulation rt mt)). Qed.
 Print Assumptions C01_conditional_simulation.
@@ -100,10 +100,14 @@ Example C01_loopfree_nonvacuous :
             SIf (RExpr (EBin BLt (EVar "x") (ELit (LInt 5))))
                 (SBlock [SReg R_HUE (RVar "x"); SIf (RVar "x") (SOn OpAll) (Some (SOff OpAll))])
                 (Some (SPrint (Some (RLit (LInt 0)))));
-            SIf (RLit (LInt 0)) (SPrintln (Some (RVar "x"))) None; SSet OpAll] in
+            SIf (RLit (LInt 0)) (SPrintln (Some (RVar "x"))) None;
+            SRepeat (LWhile (RExpr (EBin BGt (EVar "x") (ELit (LInt 0)))))
+                    (SBlock [SPrint (Some (RVar "x")); SAssign "x" (RExpr (EBin BSub (EVar "x") (ELit (LInt 1))));
+                             SRepeat (LWhile (RExpr (EBin BLt (EReg R_HUE) (ELit (LInt 5))))) (SReg R_HUE (RExpr (EBin BAdd (EReg R_HUE) (ELit (LInt 1)))))]);
+            SSet OpAll] in
   let w := [mkLight "a" "g" "l" KPlain [0; 0; 0; 0]] in
-  SimpleL (snd (collect p [] [])) p /\ (sizeL p <= 200)%nat /\ exists evs, run_src 200 p w = SFinished evs /\ (2 <= length evs)%nat.
+  SimpleL (snd (collect p [] [])) p /\ exists evs, run_src 200 p w = SFinished evs /\ (5 <= length evs)%nat.
 Proof.
-  split; [apply (simple_list_sound _ 10); vm_compute; reflexivity|]. split; [vm_compute; repeat constructor|].
+  split; [apply (simple_list_sound _ 10); vm_compute; reflexivity|].
   eexists. split; [vm_compute; reflexivity|]. cbn. repeat constructor.
 Qed.
